@@ -157,7 +157,7 @@ class LFRicInvoke(Invoke):
         self.loop_bounds = LFRicLoopBounds(self)
 
         # Extend argument list with stencil information
-        self._alg_unique_args.extend(self.stencil.unique_alg_vars)
+        self._alg_unique_args.extend(self.stencil.unique_alg_args)
 
         # Adding in qr arguments
         self._alg_unique_qr_args = []
